@@ -248,7 +248,10 @@ func (u *Universe) ssub(s, lo, hi string) string {
 }
 
 func (u *Universe) tagOf(t types.Type) int {
-	k := types.TypeString(t, nil)
+	return u.tagOfKey(types.TypeString(t, nil))
+}
+
+func (u *Universe) tagOfKey(k string) int {
 	if id, ok := u.tags[k]; ok {
 		return id
 	}
@@ -343,6 +346,9 @@ func (u *Universe) prelude() string {
 	}
 	for _, a := range u.axioms {
 		b.WriteString(a + "\n")
+	}
+	if len(u.extIfaces) > 1 {
+		b.WriteString("(assert (distinct " + strings.Join(u.extIfaces, " ") + "))\n")
 	}
 	return b.String()
 }
